@@ -6,11 +6,12 @@ Models: `Model/Murmur3.lean` (streaming hasher, Cassandra one-shot spec, CDC), `
 import ScyllaVerif.Model.Murmur3
 import ScyllaVerif.Model.PartitionKey
 import ScyllaVerif.Proofs.Murmur3
+import ScyllaVerif.Proofs.Murmur3Java
 import ScyllaVerif.Proofs.PartitionKey
 
 namespace ScyllaVerif.Props.C03
 open ScyllaVerif.Murmur3 ScyllaVerif.PartitionKey
-open ScyllaVerif.Proofs.Murmur3 ScyllaVerif.Proofs.PartitionKey
+open ScyllaVerif.Proofs.Murmur3 ScyllaVerif.Proofs.Murmur3Java ScyllaVerif.Proofs.PartitionKey
 
 deriving instance DecidableEq for Except
 
@@ -67,6 +68,69 @@ theorem murmur3Spec_ne_min (bs : List UInt8) : murmur3Spec bs ≠ Int64.minValue
 
 example : tokenNew Int64.minValue = Int64.maxValue ∧ tokenNew 5 = 5 := by decide
 
+/-! ### the one-shot form is Cassandra's Java, statement by statement; the server-side token
+
+`Murmur3.Java.*` transliterates `MurmurHash.hash3_x64_128` (block loop over `getblock` with `+`/`& 0xff`, the literal
+15-case fall-through `switch(length & 15)` with signed `(long) key.get(..)` casts, `fmix`) and
+`Murmur3Partitioner.getToken` without sharing a definition with the driver model. -/
+
+/-- The Java transliteration computes `murmur3Raw` on every byte string (all lengths, all byte values). -/
+theorem java_transliteration_eq (key : List UInt8) : (Java.hash3_x64_128 key).1 = murmur3Raw key :=
+  java_eq_raw key
+
+/-- `(long) b` of a Java byte is the driver's `b as i8 as i64`; `getblock` is the little-endian load. -/
+theorem java_byte_and_block (b : UInt8) (key : List UInt8) (offset index : Nat) :
+    Java.toLong b = sext b ∧ Java.getblock key offset index = le64 (key.drop (offset + 8 * index)) :=
+  ⟨toLong_eq_sext b, getblock_eq_le64 key offset index⟩
+
+/-- **The routing token is the server-side token.** For every chunking of a NON-EMPTY key the driver's hasher returns
+`Murmur3Partitioner.getToken(key)`. (Empty keys: see `empty_key`.) -/
+theorem token_eq_server (chunks : List (List UInt8)) (hne : chunks.flatten ≠ []) :
+    finish (chunks.foldl write init) = Java.getToken chunks.flatten := by
+  rw [chunking_independent, getToken_eq_spec _ hne]
+
+theorem murmur3Spec_eq_server (key : List UInt8) (hne : key ≠ []) : murmur3Spec key = Java.getToken key :=
+  (getToken_eq_spec key hne).symm
+
+/-- What happens on the empty key, which is outside the server's domain (a partition key may not be empty: the server
+rejects the request): the driver computes 0 for every chunking of it, the server-side `getToken` is the minimum token. -/
+theorem empty_key (chunks : List (List UInt8)) (he : chunks.flatten = []) :
+    finish (chunks.foldl write init) = 0 ∧ Java.getToken chunks.flatten = Int64.minValue := by
+  rw [chunking_independent, he]
+  decide +kernel
+
+-- non-vacuity: a 3-byte key of bytes ≥ 0x80 written as 2 + 0 + 1 bytes
+example : finish ([[0x80, 0x91], [], [0xa2]].foldl write init) = Java.getToken [0x80, 0x91, 0xa2] :=
+  token_eq_server _ (by decide)
+
+/-! ### tests (not theorems): public MurmurHash3_x64_128 / Cassandra-token vectors on the Java transliteration -/
+
+-- test: SMHasher / mmh3 reference value, 43 bytes = 2 blocks + 11-byte tail (k2 positions 8..10):
+-- MurmurHash3_x64_128("The quick brown fox jumps over the lazy dog", 0) = e34bbc7bbc071b6c 7a433ca9c49a9347
+example : Java.hash3_x64_128 "The quick brown fox jumps over the lazy dog".toUTF8.toList =
+    (0xe34bbc7bbc071b6c, 0x7a433ca9c49a9347) := by decide +kernel
+-- test: mmh3 documentation, hash128("foo") = 168394135621993849475852668931176482145 (= h2·2^64 + h1)
+example : Java.hash3_x64_128 "foo".toUTF8.toList =
+    (UInt64.ofNat (168394135621993849475852668931176482145 % 2 ^ 64),
+     UInt64.ofNat (168394135621993849475852668931176482145 / 2 ^ 64)) := by decide +kernel
+-- test: gocql murmur_test.go H1 values
+example : (Java.hash3_x64_128 [0]).1 = 0x4610abe56eff5cb5 ∧ (Java.hash3_x64_128 [0, 1]).1 = 0x7cb3f5c58dab264c := by
+  decide +kernel
+-- tests: DataStax python-driver tests/unit/test_metadata.py (Cassandra's signed variant):
+-- b'123'; b'\x00\xff\x10\xfa\x99' * 10 (50 bytes: 3 blocks with bytes ≥ 0x80 + a 2-byte tail, both ≥ 0x80);
+-- b'\xfe' * 8 (tail positions 0..7 all ≥ 0x80); b'\x10' * 8; b'9223372036854775807' (1 block + 3-byte tail)
+example : Java.getToken "123".toUTF8.toList = -7468325962851647638 := by decide +kernel
+example : Java.getToken (List.replicate 10 [0x00, 0xff, 0x10, 0xfa, 0x99]).flatten = 5837342703291459765 := by
+  decide +kernel
+example : Java.getToken (List.replicate 8 0xfe) = -8927430733708461935 := by decide +kernel
+example : Java.getToken (List.replicate 8 0x10) = 1446172840243228796 := by decide +kernel
+example : Java.getToken "9223372036854775807".toUTF8.toList = 7162290910810015547 := by decide +kernel
+-- regression values (NOT public vectors; no public vector with bytes ≥ 0x80 in tail positions 8..14 is known to me):
+-- 31 bytes 0x80..0x9e = 1 block + 15-byte tail, every tail position 0..14 ≥ 0x80; unsigned tail bytes would give
+-- a different value (second conjunct: the signed and the zero-extended readings differ on this input)
+example : Java.getToken ((List.range 31).map (fun i => UInt8.ofNat (0x80 + i))) = murmur3Spec
+    ((List.range 31).map (fun i => UInt8.ofNat (0x80 + i))) := by decide +kernel
+
 /-! ### tests (not theorems): the (string, token) vectors of `partitioner.rs`, obtained from a real cluster,
 validate the transliteration `murmur3Spec` of Cassandra's Java code and `cdcSpec` -/
 
@@ -79,32 +143,104 @@ example : murmur3Spec "primary_key".toUTF8.toList = -1632642444691073360 := by d
 -- test: "kremówki" (9 bytes, two of them ≥ 0x80: exercises the signed-byte tail)
 example : murmur3Spec [0x6b, 0x72, 0x65, 0x6d, 0xc3, 0xb3, 0x77, 0x6b, 0x69] = 4354931215268080151 := by
   decide +kernel
--- test: CDC vectors
-example : cdcSpec "test".toUTF8.toList = -9223372036854775808 ∧
-    cdcSpec "primary_key".toUTF8.toList = 8102654598100187487 ∧
-    cdcSpec [0x6b, 0x72, 0x65, 0x6d, 0xc3, 0xb3, 0x77, 0x6b, 0x69] = 7742362231512463211 := by decide +kernel
+-- test: the CDC values of `partitioner.rs`'s own test (keys of 4, 11 and 9 bytes: what the driver computes — only
+-- the first is what the server computes, see `cdc_outside_domain`)
+example : cdcRust "test".toUTF8.toList = -9223372036854775808 ∧
+    cdcRust "primary_key".toUTF8.toList = 8102654598100187487 ∧
+    cdcRust [0x6b, 0x72, 0x65, 0x6d, 0xc3, 0xb3, 0x77, 0x6b, 0x69] = 7742362231512463211 := by decide +kernel
 
-/-! ### CDC partitioner -/
+/-! ### CDC partitioner
 
-/-- The CDC hasher is chunking independent too: first 8 bytes big-endian (normalised), `Token::INVALID` (`i64::MIN`)
-if fewer than 8 bytes were written in total. -/
+`cdcSpec` is the server's rule (`cdc_partitioner::get_token`: minimum token unless the key is exactly 16 bytes, else
+the first 8 bytes big-endian); `cdcRust` is what the driver's hasher computes (first 8 bytes of whatever was written,
+`Token::INVALID` if fewer than 8). They agree on the domain — CDC log tables are partitioned by the 16-byte stream
+id — and on keys shorter than 8 bytes; they differ on every other length (`cdc_outside_domain`). -/
+
+/-- The CDC hasher is chunking independent: the result depends only on the concatenation. -/
 theorem cdc_chunking_independent (chunks : List (List UInt8)) :
-    cdcFinish (chunks.foldl cdcWrite cdcInit) = cdcSpec chunks.flatten := by
+    cdcFinish (chunks.foldl cdcWrite cdcInit) = cdcRust chunks.flatten := by
   have h := cdcInv_foldl chunks cdcInit [] cdcInv_init
   simp only [List.nil_append] at h
   exact cdcFinish_of_inv _ _ h
 
-theorem cdcSpec_short (bs : List UInt8) (h : bs.length < 8) : cdcSpec bs = Int64.minValue := by
-  unfold cdcSpec tokenInvalid
-  rw [if_pos h]
+/-- On a 16-byte key (every CDC stream id) the driver's CDC token is the server's. -/
+theorem cdc_eq_server_16 (bs : List UInt8) (h : bs.length = 16) : cdcRust bs = cdcSpec bs := by
+  unfold cdcRust cdcSpec
+  rw [if_neg (by omega), if_pos h]
 
-theorem cdcSpec_long_ne_min (bs : List UInt8) (h : 8 ≤ bs.length) : cdcSpec bs ≠ Int64.minValue := by
-  unfold cdcSpec
-  rw [if_neg (by omega)]
+/-- **CDC tables get the CDC token**: any chunking of a 16-byte stream id. -/
+theorem cdc_token_eq_server (chunks : List (List UInt8)) (h : chunks.flatten.length = 16) :
+    cdcFinish (chunks.foldl cdcWrite cdcInit) = cdcSpec chunks.flatten := by
+  rw [cdc_chunking_independent, cdc_eq_server_16 _ h]
+
+/-- Keys shorter than 8 bytes: both give the minimum token. -/
+theorem cdc_short (bs : List UInt8) (h : bs.length < 8) :
+    cdcRust bs = Int64.minValue ∧ cdcSpec bs = Int64.minValue := by
+  unfold cdcRust cdcSpec tokenInvalid
+  rw [if_pos h, if_neg (by omega)]
+  exact ⟨rfl, rfl⟩
+
+/-- Outside the domain (8 bytes or more, but not 16) the driver does NOT compute the server's token: the server
+answers the minimum token, the driver the normalised first 8 bytes, which is never the minimum token. -/
+theorem cdc_outside_domain (bs : List UInt8) (h8 : 8 ≤ bs.length) (h16 : bs.length ≠ 16) :
+    cdcRust bs = tokenNew (be64 bs).toInt64 ∧ cdcSpec bs = Int64.minValue ∧ cdcRust bs ≠ cdcSpec bs := by
+  have h1 : cdcRust bs = tokenNew (be64 bs).toInt64 := by
+    unfold cdcRust; rw [if_neg (by omega)]
+  have h2 : cdcSpec bs = Int64.minValue := by
+    unfold cdcSpec; rw [if_neg h16]
+  refine ⟨h1, h2, ?_⟩
+  rw [h1, h2]
   exact tokenNew_ne_min _
 
-example : cdcFinish ([[1, 2, 3], [], [4, 5, 6, 7, 8, 9], [10]].foldl cdcWrite cdcInit) = 0x0102030405060708 ∧
-    cdcFinish ([[1, 2, 3], [4, 5, 6, 7]].foldl cdcWrite cdcInit) = Int64.minValue := by decide +kernel
+example : cdcFinish ([[1, 2, 3], [], [4, 5, 6, 7, 8, 9], [10, 11, 12, 13, 14, 15, 16]].foldl cdcWrite cdcInit) =
+      0x0102030405060708 ∧
+    cdcSpec [1, 2, 3, 4, 5, 6, 7, 8, 9, 10, 11, 12, 13, 14, 15, 16] = 0x0102030405060708 ∧
+    cdcFinish ([[1, 2, 3], [4, 5, 6, 7]].foldl cdcWrite cdcInit) = Int64.minValue ∧
+    cdcRust [1, 2, 3, 4, 5, 6, 7, 8, 9] = 0x0102030405060708 ∧ cdcSpec [1, 2, 3, 4, 5, 6, 7, 8, 9] = Int64.minValue := by
+  decide +kernel
+
+/-! ### which tables use the CDC partitioner (`PartitionerName::from_str` and its two call sites) -/
+
+/-- The CDC partitioner is selected exactly for names ending in `CDCPartitioner` (and not in `Murmur3Partitioner`,
+which is tested first); every other name, and no name, selects Murmur3. -/
+theorem selectPartitioner_cdc_iff (name : Option (List UInt8)) :
+    selectPartitioner name = .cdc ↔
+      ∃ s, name = some s ∧ cdcSuffix <:+ s ∧ ¬ murmur3Suffix <:+ s := by
+  unfold selectPartitioner partitionerFromStr
+  cases name with
+  | none => simp
+  | some s =>
+    simp only [Option.some.injEq, exists_eq_left']
+    rw [← List.isSuffixOf_iff_suffix, ← List.isSuffixOf_iff_suffix]
+    cases murmur3Suffix.isSuffixOf s <;> cases cdcSuffix.isSuffixOf s <;> simp
+
+theorem selectPartitioner_murmur3 (s : List UInt8) (h : murmur3Suffix <:+ s) :
+    selectPartitioner (some s) = .murmur3 := by
+  unfold selectPartitioner partitionerFromStr
+  simp only []
+  rw [if_pos (List.isSuffixOf_iff_suffix.mpr h)]
+  rfl
+
+/-- Unknown names fall back to the default partitioner. -/
+theorem selectPartitioner_unknown (s : List UInt8) (h1 : ¬ murmur3Suffix <:+ s) (h2 : ¬ cdcSuffix <:+ s) :
+    partitionerFromStr s = none ∧ selectPartitioner (some s) = .murmur3 := by
+  have e1 : murmur3Suffix.isSuffixOf s = false := by
+    cases h : murmur3Suffix.isSuffixOf s with
+    | false => rfl
+    | true => exact absurd (List.isSuffixOf_iff_suffix.mp h) h1
+  have e2 : cdcSuffix.isSuffixOf s = false := by
+    cases h : cdcSuffix.isSuffixOf s with
+    | false => rfl
+    | true => exact absurd (List.isSuffixOf_iff_suffix.mp h) h2
+  unfold selectPartitioner partitionerFromStr
+  simp [e1, e2]
+
+-- tests: the names the servers report
+example : murmur3Suffix = "Murmur3Partitioner".toUTF8.toList ∧ cdcSuffix = "CDCPartitioner".toUTF8.toList ∧
+    selectPartitioner (some "com.scylladb.dht.CDCPartitioner".toUTF8.toList) = .cdc ∧
+    selectPartitioner (some "org.apache.cassandra.dht.Murmur3Partitioner".toUTF8.toList) = .murmur3 ∧
+    selectPartitioner (some "org.apache.cassandra.dht.RandomPartitioner".toUTF8.toList) = .murmur3 ∧
+    selectPartitioner none = .murmur3 := by decide +kernel
 
 /-! ### partition key extraction: key order is independent of bind-marker order -/
 
@@ -222,7 +358,7 @@ theorem token_formula (cdc : Bool) (wire : List Nat) (values : List RawValue) (c
     (hbound : keyOf wire values = comps.map some)
     (hsmall : 2 ≤ comps.length → ∀ c ∈ comps, c.length ≤ 65535) :
     calculateToken cdc (pkIndexesOfWire wire) values =
-      .ok (some (if cdc then cdcSpec (encodeKey comps) else murmur3Spec (encodeKey comps))) := by
+      .ok (some (if cdc then cdcRust (encodeKey comps) else murmur3Spec (encodeKey comps))) := by
   have hpk : (pkIndexesOfWire wire).isEmpty = false := by
     have : (pkIndexesOfWire wire).length = wire.length := pkIndexesOfWire_length wire
     cases hw : pkIndexesOfWire wire with
@@ -241,6 +377,30 @@ theorem token_formula (cdc : Bool) (wire : List Nat) (values : List RawValue) (c
   cases cdc with
   | false => simp only [Bool.false_eq_true, if_false]; rw [chunking_independent, hfl]
   | true => simp only [if_true]; rw [cdc_chunking_independent, hfl]
+
+/-- The token formula against the server's own functions: for a non-empty serialized key the Murmur3 token is
+`Murmur3Partitioner.getToken`, and for a CDC table — whose key is the single 16-byte stream id — the CDC token is
+`cdc_partitioner::get_token`. -/
+theorem token_formula_server (cdc : Bool) (wire : List Nat) (values : List RawValue) (comps : List (List UInt8))
+    (hne : wire ≠ []) (hnd : wire.Nodup) (hlt : ∀ ix ∈ wire, ix < values.length) (hv : values.length ≤ 65535)
+    (hbound : keyOf wire values = comps.map some)
+    (hsmall : 2 ≤ comps.length → ∀ c ∈ comps, c.length ≤ 65535)
+    (hdom : if cdc then (encodeKey comps).length = 16 else encodeKey comps ≠ []) :
+    calculateToken cdc (pkIndexesOfWire wire) values =
+      .ok (some (if cdc then cdcSpec (encodeKey comps) else Java.getToken (encodeKey comps))) := by
+  rw [token_formula cdc wire values comps hne hnd hlt hv hbound hsmall]
+  cases cdc with
+  | false =>
+    simp only [Bool.false_eq_true, if_false] at hdom ⊢
+    rw [murmur3Spec_eq_server _ hdom]
+  | true =>
+    simp only [if_true] at hdom ⊢
+    rw [cdc_eq_server_16 _ hdom]
+
+/-- A composite key is never empty, so only the single-component empty key is outside `token_formula_server`. -/
+theorem encodeKey_composite_ne_nil (v w : List UInt8) (rest : List (List UInt8)) :
+    encodeKey (v :: w :: rest) ≠ [] := by
+  simp [encodeKey, be16]
 
 /-- `compute_partition_key` returns exactly the serialized key the token is computed from. -/
 theorem computePartitionKey_formula (wire : List Nat) (values : List RawValue) (comps : List (List UInt8))
@@ -323,6 +483,32 @@ example (big : List UInt8) (hb : big.length = 65536) : ∃ n, 65536 ≤ n ∧
     ⟨big, List.mem_cons_of_mem _ List.mem_cons_self, by omega⟩
   exact ⟨n, h1, h2⟩
 
+/-! ### the `serialize_values` guard and the `u16` offset -/
+
+/-- The public entry points serialize the bound values first: more than 65535 values is a `Serialization` error,
+whatever the pk indexes are; otherwise they are `calculate_token_untyped` / the extraction above. -/
+theorem too_many_values (cdc : Bool) (pk : List PkIndex) (values : List RawValue) (h : 65535 < values.length) :
+    boundCalculateToken cdc pk values = .error .serialization ∧
+      boundComputePartitionKey pk values = .error .serialization := by
+  unfold boundCalculateToken boundComputePartitionKey
+  rw [if_pos h, if_pos h]
+  exact ⟨rfl, rfl⟩
+
+theorem bound_eq (cdc : Bool) (pk : List PkIndex) (values : List RawValue) (h : values.length ≤ 65535) :
+    boundCalculateToken cdc pk values = calculateToken cdc pk values ∧
+      boundComputePartitionKey pk values = computePartitionKey pk values := by
+  unfold boundCalculateToken boundComputePartitionKey
+  rw [if_neg (by omega), if_neg (by omega)]
+  exact ⟨rfl, rfl⟩
+
+/-- Under that guard the `u16` increment `values_iter_offset = pk_index.index + 1` of `PartitionKey::new` cannot
+overflow, for ANY pk index table (well-formed or not): the model's overflow branch is dead. -/
+theorem offset_increment_never_overflows (pk : List PkIndex) (values : List RawValue) (h : values.length ≤ 65535) :
+    extract pk values =
+      extractLoopNoOvf values.length pk values 0 (List.replicate pk.length none) := by
+  unfold extract
+  exact extractLoop_no_overflow values.length h pk values 0 _ (by omega)
+
 /-- A statement without partition-key markers has no token (not token-aware). -/
 theorem no_pk_no_token (cdc : Bool) (values : List RawValue) :
     calculateToken cdc (pkIndexesOfWire []) values = .ok none := by
@@ -332,9 +518,9 @@ theorem no_pk_no_token (cdc : Bool) (values : List RawValue) :
 theorem tokenForPartitionKey_formula (cdc : Bool) (comps : List (List UInt8)) (hne : comps ≠ [])
     (hsmall : 2 ≤ comps.length → ∀ c ∈ comps, c.length ≤ 65535) :
     tokenForPartitionKey cdc (comps.map .value) =
-      .ok (if cdc then cdcSpec (encodeKey comps) else murmur3Spec (encodeKey comps)) := by
+      .ok (if cdc then cdcRust (encodeKey comps) else murmur3Spec (encodeKey comps)) := by
   have hfin : ∀ cs : List (List UInt8), cs.flatten = encodeKey comps →
-      hashChunks cdc cs = if cdc then cdcSpec (encodeKey comps) else murmur3Spec (encodeKey comps) := by
+      hashChunks cdc cs = if cdc then cdcRust (encodeKey comps) else murmur3Spec (encodeKey comps) := by
     intro cs hfl
     unfold hashChunks
     cases cdc with
